@@ -114,7 +114,14 @@ CHECKS.update({
         "text (size column aligned to 16 / longest present) and re-parse to the same records;", "DESIGN.md §5 C12"),
  "C13": bounded_only("generated relation structures covering every combination of the optional parts and up to 4 restriction groups are formatted, "
         "parsed back (no warning allowed) and re-formatted;", "DESIGN.md §5 C13"),
- "C15": bounded_only("well-formed changelogs mutated by inserting/deleting/duplicating lines from a pool of 26 line kinds, with allow_empty_author on "
+ "C15": dict(bounded_only("", "DESIGN.md §5 C15"),
+        text="Strictness consistency is established deductively: an AST data-flow check shows that `strict` reaches nothing but the second "
+             "argument of _parse_error in the real parse_changelog, and _parse_error is verified to raise when strict and to warn exactly "
+             "once otherwise. Totality of the lenient parser and the normal-form clause are decided by a bounded stand-in: well-formed "
+             "changelogs mutated by inserting/deleting/duplicating lines from a pool of 26 line kinds, allow_empty_author on/off, plus "
+             "editing histories.",
+        technique="AST data-flow (taint) check + contract-based verification of _parse_error (SMT) + bounded stand-in"),
+ "C15-old": bounded_only("well-formed changelogs mutated by inserting/deleting/duplicating lines from a pool of 26 line kinds, with allow_empty_author on "
         "and off: lenient never raises, strict raises iff lenient warns, str() is a normal form; plus editing histories;", "DESIGN.md §5 C15"),
  "C17": dict(bounded_only("", "DESIGN.md §5 C17"),
         text="format_multiline_lines is verified from its AST against the per-line encoding (loop invariant), and the per-line round-trip "
